@@ -29,7 +29,7 @@ TouchstoneKinds == {"s1p", "s2p", "s3p", "s4p", "ts"}
 
 Mutations == {"none", "tokDel", "tokDup", "tokSwap", "numPerturb", "kwReorder",
               "lineDel", "lineDup", "truncate", "yamlKind", "randBytes",
-              "insert", "splice"}
+              "insert", "splice", "kwRepeat"}
 
 (* yamlKind (node kind substitution) needs a YAML document *)
 Applicable(kind, mut) ==
